@@ -15,7 +15,7 @@ ASSUMPTIONS = [
     "numpy storage replaced by dtype=object arrays",
 ]
 BOUNDS = {
-    "quick": "helpers: domain sizes 2-3, up to 2 constraints of arity <= 2 (plus one ternary), with/without own cost table on the target and/or on its neighbour, a variable without constraint, min/max; DSA A/B/C on pair, DSA-A on chain-3 (2 cycles), A-DSA pair (3 ticks), DSA-tuto pair (3 rounds)",
+    "quick": "helpers: domain sizes 2-3, up to 2 constraints of arity <= 2 (plus one ternary), with/without own cost table on the target and/or on its neighbour, a variable without constraint, min/max; projection of a binary relation (2x3, infinite entries) and of a ternary relation (2x3x2, middle variable eliminated); DSA A/B/C on pair, DSA-A on chain-3 (2 cycles), A-DSA pair (3 ticks), DSA-tuto pair (3 rounds)",
     "thorough": "helpers: domain up to 4, ternary + binary, all kinds; DSA variants on chain-3 and pair with variable costs, 3 cycles",
 }
 OUTSIDE = "domains above 4, more than 2 constraints per variable, float-valued finite costs, NaN"
@@ -58,6 +58,7 @@ def jobs(tier):
                         "kinds": kinds, "target": "x"})
         out.append({"name": "ocv-nocost-%s" % mode, "op": "ocv", "dom": 3, "kinds": "none", "mode": mode})
         out.append({"name": "proj-inf-%s" % mode, "op": "proj", "kinds": "posinf" if mode == "min" else "neginf", "mode": mode})
+        out.append({"name": "proj3-y-%s" % mode, "op": "proj3", "kinds": "fin", "mode": mode, "elim": "y"})
         # DSA family on the bench
         for variant in ("A", "B", "C"):
             out.append({"name": "dsa%s-pair-%s" % (variant, mode), "op": "dsa", "algo": "dsa", "variant": variant,
@@ -170,6 +171,33 @@ def run(eng, p):
             cmp = F.le if mode == "min" else F.ge
             eng.prove(F.and_([cmp(costs[val], c) for c in costs] + [_eq(cost, costs[val])]),
                       "optimal_cost_value did not return an optimal value with its cost")
+    elif op == "proj3":
+        # ternary relation with domains of different sizes: the projected table has two remaining axes
+        mode = p["mode"]
+        doms = {"x": [0, 1], "y": [0, 1, 2], "z": [0, 1]}
+        vs = {n: Variable(n, Domain("d" + n, "", d)) for n, d in doms.items()}
+        order = ["x", "y", "z"]
+        tab = {}
+        for i in doms["x"]:
+            for j in doms["y"]:
+                for k in doms["z"]:
+                    tab[(i, j, k)] = _entry(eng, "u%d%d%d" % (i, j, k), kinds)
+        rel = NAryMatrixRelation([vs[n] for n in order], [[[tab[(i, j, k)] for k in doms["z"]] for j in doms["y"]] for i in doms["x"]],
+                                 name="u")
+        elim = p["elim"]
+        pr = projection(rel, vs[elim], mode)
+        rest = [n for n in order if n != elim]
+        eng.prove([v.name for v in pr.dimensions] == rest, "projection scope is not the scope minus the eliminated variable")
+        cmp = F.le if mode == "min" else F.ge
+        conds = []
+        for a in doms[rest[0]]:
+            for b in doms[rest[1]]:
+                got = pr(**{rest[0]: a, rest[1]: b})
+                row = [tab[tuple({rest[0]: a, rest[1]: b, elim: e}[n] for n in order)] for e in doms[elim]]
+                conds.append(F.and_([cmp(got, c) for c in row]))
+                conds.append(F.or_([_eq(got, c) for c in row]))
+        eng.notes["outcome"] = {}
+        eng.prove(F.and_(conds), "projection entry is not the optimum over the eliminated variable")
     elif op == "proj":
         mode = p["mode"]
         x = Variable("x", Domain("d", "", [0, 1]))
